@@ -175,6 +175,15 @@ static void run(Src &s) {
     GFile f = gen_file(s, o);
     Injected in = inject(s, f);
     std::string path = g_scr.dir + "/f.conf";
+    if (s.chance(12)) {
+      // a long (but ordinary) absolute path: the error location must carry it in full
+      std::string dir = g_scr.dir;
+      int comps = 5 + (int)s.below(6);
+      for (int c = 0; c < comps; c++) dir += "/" + std::string(20 + s.below(30), (char)('a' + c));
+      mkdir_p(dir);
+      path = dir + "/f.conf";
+      g_case.tag(path.size() >= 256 ? "path_256_or_longer" : "path_long");
+    }
     write_file(path, in.text);
     g_case.desc = std::string("single D='") + esc(f.D) + "' C='" + f.C + "' kind=" + KIND_NAME[in.kind] +
                   " line=" + std::to_string(in.line) + " file='" + esc(in.text) + "'";
